@@ -89,7 +89,25 @@ ThmRewriteIdempotent ==
   \A v \in Candidates : Resolve(v) # 0 => Resolve(StrV(alias[Resolve(v)])) = Resolve(v)
 
 
+(***************************************************************************)
+(* Datetime dimensions: an element may be referenced by its position id    *)
+(* (int, or the same number as a string) or by its value.  Element k has   *)
+(* id k and value token "d<k>" (the harness maps the token to the ISO       *)
+(* string it put in the response).                                         *)
+(***************************************************************************)
+DtValue(k) == CASE k = 1 -> "d1" [] k = 2 -> "d2" [] k = 3 -> "d3" [] OTHER -> "d?"
+DtResolve(v) ==
+  IF HasInt(v) /\ AsInt(v) \in Items THEN AsInt(v)
+  ELSE IF v.t = "s" /\ \E k \in Items : DtValue(k) = v.s THEN CHOOSE k \in Items : DtValue(k) = v.s
+  ELSE 0
+DtCandidates ==
+  {IntV(k) : k \in Items} \cup {StrV(DtValue(k)) : k \in Items}
+  \cup {StrV(s) : s \in DOMAIN Numeric} \cup {StrV("zz"), IntV(7), IntV(0), NullV}
+ThmDtIdAndValueAgree ==
+  \A k \in Items : DtResolve(IntV(k)) = k /\ DtResolve(StrV(DtValue(k))) = k
+
 EmitInv ==
   PrintT(ToJson([ alias |-> alias, svid |-> svid, eid |-> eid,
-                  refs |-> {[v |-> v, item |-> Resolve(v), rule |-> Rule(v)] : v \in Candidates} ]))
+                  refs |-> {[v |-> v, item |-> Resolve(v), rule |-> Rule(v)] : v \in Candidates},
+                  dtrefs |-> {[v |-> v, item |-> DtResolve(v)] : v \in DtCandidates} ]))
 =============================================================================
